@@ -41,6 +41,9 @@ pub enum SStep {
     FaultWriteEintr(usize),
     /// drain to quiescence in the middle of the history (fill/drain cycles)
     Drain,
+    /// the server process forks; the child inherits the open descriptors, never uses them, and
+    /// lives on (closing an inherited connection no longer hangs it up or deregisters it from epoll)
+    Fork,
 }
 
 #[derive(Clone, Debug)]
@@ -87,6 +90,7 @@ impl SStep {
             SStep::FaultRead(c, e) => a(vec![json::s("fault_read"), json::u(*c), json::i(*e)]),
             SStep::FaultWriteEintr(c) => a(vec![json::s("fault_write_eintr"), json::u(*c)]),
             SStep::Drain => a(vec![json::s("drain")]),
+            SStep::Fork => a(vec![json::s("fork")]),
         }
     }
     pub fn from_json(j: &J) -> Result<SStep, String> {
@@ -112,6 +116,7 @@ impl SStep {
             "fault_read" => SStep::FaultRead(n(1)?, a.get(2).and_then(|x| x.int()).ok_or("errno")? as i32),
             "fault_write_eintr" => SStep::FaultWriteEintr(n(1)?),
             "drain" => SStep::Drain,
+            "fork" => SStep::Fork,
             _ => return Err(format!("unknown step {}", k)),
         })
     }
@@ -754,6 +759,16 @@ impl ServerSim {
             },
             SStep::Drain => {
                 self.drain(st)?;
+                true
+            }
+            SStep::Fork => {
+                let open = self.stream_fds();
+                world::with(|w| w.fork_inherit());
+                st.fault("F-fork");
+                if open > 0 {
+                    st.probe("fork_with_connections_open");
+                }
+                self.sig.u(15);
                 true
             }
         };
